@@ -34,6 +34,17 @@ class Mutating:
     self.tokens, self.options = tokens, options
 
 
+def immutable_init(scale=1.0, axes=(), name='u'):
+  return ('init', scale, axes, name)
+
+
+try:
+  from fiddle._src import daglish_extensions as _dx
+  _dx.register_function_with_immutable_return_value(immutable_init)
+except Exception:
+  pass
+
+
 def _other(root):
   c = copy.deepcopy(root)
   for n in C15.reachable_buildables(c)[:2]:
@@ -94,6 +105,7 @@ def apis():
       'materialize_tags_clear': lambda c: tagging.materialize_tags(c, clear_field_tags=True),
       'list_tags': lambda c: tagging.list_tags(c, add_superclasses=True),
       'clear_argument_history': lambda c: serialization.clear_argument_history(c),
+      'clear_argument_history_edited': lambda c: edit(serialization.clear_argument_history(c), deep=True),
       'trim_long_fields': lambda c: visualize.trim_long_fields(c, threshold=5),
       'trim_fields_to': lambda c: visualize.trim_fields_to(c, [k for k in c.__arguments__ if isinstance(k, str)][:1]),
       'trim_fields_to_by_id': lambda c: visualize.trim_fields_to(
@@ -151,9 +163,11 @@ def cases(tier, r):
   n = 14 if tier == 'quick' else 150
   for i in range(n):
     for name in API_NAMES:
-      flavours = ['plain', 'plain', 'positional', 'long', 'mutating', 'empty_tagged']
+      flavours = ['plain', 'plain', 'positional', 'long', 'mutating', 'empty_tagged', 'tagged_standalone',
+                  'immutable_return']
       if name.startswith(('trim', 'graphviz', 'with_defaults', 'depth', 'structure')):
-        flavours = ['plain', 'positional', 'positional', 'long', 'mutating', 'mutating', 'empty_tagged']
+        flavours = ['plain', 'positional', 'positional', 'long', 'mutating', 'mutating', 'empty_tagged',
+                    'tagged_standalone']
       yield 'api', {'seed': r.getrandbits(48), 'size': r.choice([3, 5, 8]), 'api': name,
                     'flavour': r.choice(flavours)}
 
@@ -177,6 +191,17 @@ def make_root(case):
     fdl.add_tag(sub, 'p', targets.T0)
     root = fdl.Config(graphs.node_fn(1, 0), p=root, q=sub, r=[sub, [], {}])
     fdl.add_tag(root, 'q', targets.T3)
+  if fl == 'tagged_standalone':
+    # stand-alone TaggedValues (filled and unfilled) kept inside containers: real nodes of the
+    # configuration, with arguments of their own
+    tvs = [targets.T1.new(0.1), targets.T0.new(), fdl.TaggedValue(tags=[targets.T2, targets.T3], default=[1])]
+    root = fdl.Config(graphs.node_fn(1, 0), p=root, q=[tvs[0], tvs[1], {'k': tvs[2]}], r=(tvs[0],))
+  if fl == 'immutable_return':
+    # a callable registered as returning an immutable value (as the JAX extension does for
+    # initializers): its sub-configurations are still mutable Buildables
+    inner = fdl.Config(immutable_init, scale=0.5, axes=(0,))
+    fdl.add_tag(inner, 'scale', targets.T1)
+    root = fdl.Config(graphs.node_fn(1, 0), p=root, q=inner, r=[inner, fdl.Partial(immutable_init, scale=2)])
   # the top-level node carries tags of its own in every flavour: a shallow copy that shares the
   # per-argument tag sets, or a copy-returning API that tags through to its input, must show
   for k in list(root.__arguments__)[:3]:
